@@ -288,11 +288,9 @@ def prefix_for_replay(lines, step):
 
 
 def orphans_enabled():
-    if os.environ.get("VERIF_C19_ORPHANS"):
-        return True
-    return any(e.get("property") == "C19" and e.get("status") == "open" and
-               e.get("signature", "").startswith("C19:orphan-")
-               for e in C.known_findings().get("findings", []))
+    """The "process ends, a background child of it lives on" scenarios are part of every run (two of
+    their three findings were repaired in /repo, the third is listed in known_findings.json)."""
+    return not os.environ.get("VERIF_C19_NO_ORPHANS")
 
 
 def check(ctx):
